@@ -64,6 +64,22 @@ func genEdit(r *rng.R, flavor string) Edit {
 		default:
 			return Edit{K: "ocnt", Key: keys[r.Intn(len(keys))], V: r.Intn(100)}
 		}
+	case "objnest":
+		// two hot keys whose values are mostly containers: set, replace, delete (and, with undo in
+		// the history, restore) nested objects, texts and arrays under the same key
+		k := keys[r.Intn(2)]
+		switch r.Pick(3, 3, 2, 1, 1) {
+		case 0:
+			return Edit{K: "onew", Key: k, V: r.Intn(100)}
+		case 1:
+			return Edit{K: "odel", Key: k}
+		case 2:
+			return Edit{K: "oset", Key: k, V: r.Intn(100)}
+		case 3:
+			return Edit{K: "otext", Key: k, S: strs[r.Intn(len(strs))]}
+		default:
+			return Edit{K: "oarr", Key: k, V: r.Intn(100)}
+		}
 	case "array":
 		switch r.Pick(3, 4, 3, 1) {
 		case 0:
@@ -143,7 +159,7 @@ func genEdit(r *rng.R, flavor string) Edit {
 
 func setupFor(flavor string) string {
 	switch flavor {
-	case "object":
+	case "object", "objnest":
 		return "o"
 	case "array", "arraymove":
 		return "a"
@@ -284,6 +300,11 @@ func Generate(r *rng.R, g GenConfig) *History {
 				h.Steps = append(h.Steps, Step{Op: "Z", C: c})
 			} else {
 				h.Steps = append(h.Steps, Step{Op: "Y", C: c})
+			}
+			if g.FailUpd && r.Chance(1, 2) {
+				// a failing update right after an undo/redo: the copy handed to callbacks is rebuilt
+				// from the document as the undo/redo left it
+				h.Steps = append(h.Steps, Step{Op: "U", C: c, Fail: "err"})
 			}
 		}
 	}
